@@ -24,11 +24,14 @@ static int32_t s_msg(qb_ipcs_connection_t *c, void *data, size_t size)
 		return 0;
 	}
 	hostile_msgs++;
-	vp_log("  S: msg_process(hostile, size %zu) [really sent: %ld bytes]", size, last_real_len);
+	vp_log("  S: msg_process(hostile, size %zu) [really sent: %ld bytes; the server negotiated %d]", size, last_real_len, qb_ipcs_connection_get_buffer_size(c));
 	if (part == 0) vp_fail("the message callback was invoked (%zu bytes) for a peer that only wrote handshake bytes", size);
 	if (last_real_len >= 0 && size > (size_t)last_real_len)
 		vp_fail("the message callback was told %zu bytes but the client really sent %ld", size, last_real_len);
 	if (size > maxmsg) vp_fail("the message callback was told %zu bytes, the negotiated maximum is %zu", size, maxmsg);
+	/* what the server itself answered in the handshake (the client side may believe something else after a doctored handshake) */
+	if ((int32_t)size > qb_ipcs_connection_get_buffer_size(c))
+		vp_fail("the message callback was told %zu bytes, the maximum the server negotiated for this connection is %d", size, qb_ipcs_connection_get_buffer_size(c));
 	/* an application reads what it is told it got: ASan sees any byte outside the connection's buffers */
 	{ volatile unsigned char sink = 0; size_t i; for (i = 0; i < size; i++) sink ^= ((unsigned char *)data)[i]; (void)sink; }
 	return 0;
@@ -114,12 +117,20 @@ static void hostile_messages(void)
 	struct qb_ipc_request_header h;
 	long L; int32_t S;
 	phase_hostile = 1;
+	{
+		/* the maximum message size a connection is set up for comes from the peer too */
+		static const int mm[] = { -1, 1, 15, 17, 100 };
+		int c = vp_choose(5, "max_msg_size announced in the handshake");
+		W_patch_maxmsg = mm[c];
+		if (c) vp_log("  H: handshake announces max_msg_size %d", mm[c]);
+	}
 	HC = qb_ipcc_connect(svc_name, 12400);
+	W_patch_maxmsg = -1;
 	phase_hostile = 0;
 	if (!HC) vp_fail("the (later hostile) client could not connect: %s", strerror(errno));
 	maxmsg = (size_t)qb_ipcc_get_buffer_size(HC);
 	lvals[0] = 0; lvals[1] = 1; lvals[2] = 15; lvals[3] = 16; lvals[4] = 17; lvals[5] = 1000; lvals[6] = (long)maxmsg; lvals[7] = (long)maxmsg + 1; lvals[8] = 2 * (long)maxmsg;
-	nl = transport ? 9 : 7;
+	nl = 9;      /* on shared memory the ring is rounded up to whole pages: it takes chunks beyond the negotiated maximum */
 	li = vp_choose(nl, "real length"); L = lvals[li];
 	svals[0] = INT_MIN; svals[1] = -1; svals[2] = 0; svals[3] = 1; svals[4] = 15; svals[5] = 16; svals[6] = (int32_t)L - 1; svals[7] = (int32_t)L; svals[8] = (int32_t)L + 1;
 	svals[9] = (int32_t)maxmsg; svals[10] = (int32_t)maxmsg + 1; svals[11] = INT_MAX;
